@@ -565,6 +565,86 @@ where
     }
 }
 
+/// Mat * Bezier on concrete rational matrices with special structure — zero, identity, a zero row or
+/// column, rank one, a projection, diagonal with a zero, and random ones: every matrix is a legal
+/// linear (affine) map, singular or not, and the product is the curve of the transformed control points
+fn mat_values<M, C>(sub: &mut Sub, cfg: &Config, idx: u64)
+where
+    M: MatX<Q> + Mul<C, Output = C> + Copy,
+    C: CvR<Q>,
+{
+    let n = M::N;
+    let dim = C::DIM;
+    let api = format!("Mul<{}> for {}", C::NAME, M::NAME);
+    let mut rng = Rng::for_case(&format!("mat_values/{}/{}", M::NAME, C::NAME), cfg.case_seed(), idx);
+    let _ = take_poison();
+    let mut g: Vec<Vec<Q>> = (0..n).map(|_| (0..n).map(|_| small_q(&mut rng, 6, 3)).collect()).collect();
+    let kind = idx % 8;
+    match kind {
+        0 => g = vec![vec![Q::ZERO; n]; n],
+        1 => g = (0..n).map(|i| (0..n).map(|j| if i == j { Q::ONE } else { Q::ZERO }).collect()).collect(),
+        2 => { let r = rng.usize_below(dim); for j in 0..n { g[r][j] = Q::ZERO; } }
+        3 => { let c = rng.usize_below(dim); for i in 0..n { g[i][c] = Q::ZERO; } }
+        4 => {
+            // rank one on the linear block: every row a multiple of the first
+            for i in 1..dim { let k = small_q(&mut rng, 4, 2); for j in 0..dim { g[i][j] = g[0][j] * k; } }
+        }
+        5 => { for i in 0..dim { for j in 0..dim { g[i][j] = if i == j && i != 0 { Q::ONE } else { Q::ZERO }; } } }
+        _ => {}
+    }
+    if n == dim + 1 && kind != 0 {
+        // affine: last row (0,..,0,1)
+        for j in 0..n { g[n - 1][j] = if j == n - 1 { Q::ONE } else { Q::ZERO }; }
+    }
+    let pts: Vec<Vec<Q>> = (0..=C::DEG).map(|_| (0..dim).map(|_| small_q(&mut rng, 9, 4)).collect()).collect();
+    let m = M::from_fn(|i, j| g[i][j]);
+    let c = C::build(&mut |k, d| pts[k][d]);
+    let mut h = H64::new();
+    h.s(&api);
+    for r in g.iter().chain(pts.iter()) { for x in r { h.u(x.hash64()); } }
+    sub.saw(&api);
+    let desc = || format!("matrix (rows) {:?} * {} {:?}", g, C::NAME, pts);
+    match guarded(|| m * c) {
+        Err(e) => {
+            let _ = take_poison();
+            let v = violation(PROP, sub, &api, "Q", "panic", "curve_of_transformed_control_points", format!("{}: panicked: {}", desc(), e), cfg.case_seed(), idx);
+            sub.violated(v);
+        }
+        Ok(r) => {
+            if let Some(p) = take_poison() {
+                sub.inconclusive(&format!("poison:{}", p));
+                return;
+            }
+            let exp: Vec<Vec<Q>> = pts
+                .iter()
+                .map(|p| {
+                    (0..dim)
+                        .map(|i| {
+                            let mut s = Q::ZERO;
+                            for j in 0..dim { s = s + g[i][j] * p[j]; }
+                            if n == dim + 1 && kind != 0 { s = s + g[i][dim]; }
+                            s
+                        })
+                        .collect()
+                })
+                .collect();
+            if n == dim + 1 && kind == 0 {
+                // the zero 4x4 / 3x3 matrix has w = 0: outside "affine with last row (0,..,0,1)"; only the absence of a panic is judged
+                sub.held(h.get(), false);
+                return;
+            }
+            let got: Vec<Vec<Q>> = (0..=C::DEG).map(|k| r.point(k).to_vec()).collect();
+            if got != exp {
+                let v = violation(PROP, sub, &api, "Q", "wrong_value", "curve_of_transformed_control_points", format!("{}: product has control points {:?}, the transformed control points are {:?}", desc(), got, exp), cfg.case_seed(), idx);
+                sub.violated(v);
+            } else {
+                sub.sample(|| format!("{} -> {:?}", desc(), got));
+                sub.held(h.get(), kind != 1);
+            }
+        }
+    }
+}
+
 // ------------------------------------------------------------------ data movement (Tag)
 
 fn tag_curve<C: Cv<Tag>>() -> C {
@@ -1179,6 +1259,24 @@ fn main() {
                 Rows3 * CubicBezier3, Cols3 * CubicBezier3, Rows4 * CubicBezier3, Cols4 * CubicBezier3
             );
         }
+        rep.push(s);
+    }
+    {
+        let nm = cfg.n(400, 40_000);
+        let proto = Sub::new(
+            "mat_mul_values",
+            "exact rationals: Mat2/Mat3/Mat4 (both layouts) * Quadratic/Cubic Bezier 2D/3D with matrices of special structure (index mod 8: zero, identity, a zero row, a zero column, rank one, projection onto a coordinate hyperplane, two random) — singular matrices are legal maps — and random control points: the product's control points equal the naive action on each control point (N = DIM: linear; N = DIM+1: affine, last row (0,..,0,1)); a panic (the overflow-checked profile has debug assertions) is a violation; non-trivial = not the identity",
+        )
+        .with_floor(nm * 8);
+        let s = run_cases(&cfg, proto, nm, |s, i| {
+            macro_rules! go { ($($M:ident * $C:ident),+) => {$( mat_values::<$M<Q>, $C<Q>>(s, &cfg, i); )+} }
+            go!(
+                Rows2 * QuadraticBezier2, Cols2 * QuadraticBezier2, Rows3 * QuadraticBezier2, Cols3 * QuadraticBezier2,
+                Rows2 * CubicBezier2, Cols2 * CubicBezier2, Rows3 * CubicBezier2, Cols3 * CubicBezier2,
+                Rows3 * QuadraticBezier3, Cols3 * QuadraticBezier3, Rows4 * QuadraticBezier3, Cols4 * QuadraticBezier3,
+                Rows3 * CubicBezier3, Cols3 * CubicBezier3, Rows4 * CubicBezier3, Cols4 * CubicBezier3
+            );
+        });
         rep.push(s);
     }
     {
